@@ -200,6 +200,13 @@ func (t *MwTable) events(pa *Path) *MwPath {
 				mp.Problems = append(mp.Problems, "unsupported mutex operation "+op)
 			}
 			mp.Events = append(mp.Events, ev)
+		case e.Kind == "store" && isNamedPtr(e.Args[0].Type, pkgRoot, "Middleware") && e.Args[0].Op != "alloc":
+			// `*m = Middleware{…}`: every field is written at once — the
+			// guarded ones without regard to the lock, and the lock itself
+			mp.Problems = append(mp.Problems, "the Middleware is overwritten as a whole (its mutex included) @"+e.At)
+			for _, f := range []string{t.PtrFld, t.FlagFld} {
+				mp.Events = append(mp.Events, MwEvent{Kind: "store", Base: e.Args[0].Key(), Field: f, Eff: e, State: state, Sec: sec, Val: &Term{Op: "opaque", Name: "whole-struct"}})
+			}
 		case (e.Kind == "load" || e.Kind == "store") && isMw(e.Args[0]):
 			a := e.Args[0]
 			ev := MwEvent{Kind: e.Kind, Base: a.Args[0].Key(), Field: a.Name, Eff: e, State: state, Sec: sec, Fresh: a.Args[0].Op == "alloc"}
